@@ -139,6 +139,7 @@ class Gen:
         lines.append('};')
         lines.append('static const SiteEntry& find_site(int shape, int slot) { for (const SiteEntry* e = g_sites; e->fn; ++e) if (e->shape == shape && e->slot == slot) return *e; fprintf(stderr, "no site for shape %d slot %d\\n", shape, slot); abort(); }')
         lines.append('const Site& site_of(int shape, int slot) { return find_site(shape, slot).site; }')
+        lines.append('bool site_exists(int shape, int slot) { for (const SiteEntry* e = g_sites; e->fn; ++e) if (e->shape == shape && e->slot == slot) return true; return false; }')
         lines.append('SiteFn site_fn(int shape, int slot) { return find_site(shape, slot).fn; }')
         lines.append('}  // namespace hm')
         with open(path, 'w') as f:
@@ -517,11 +518,14 @@ def plans_C14(g, tier):
            g.op(OP_NEW_WATCHED, obj=0),
            g.monitor(2, g.shape(mock='W', seqar=1), w=0, s1=0),
            g.op(OP_PUSH_TRACER, k1=0)]
+    # variants with a fourth member: a second expectation in the movable mock's list / a second monitor on the watched object
+    pop_mv2 = pop + [g.create(3, g.shape(mock='MV', fn=F1, mk1='EQ', tform='RT'), obj=2, k1=1, lo=1, hi=INF)]
+    pop_mon2 = pop + [g.monitor(3, g.shape(mock='W', seqar=0), w=0)]
     pop_small = [g.create(0, g.shape(fn=F1, mk1='ANY', seqar=1, tform='RT'), obj=0, lo=1, hi=INF, s1=0),
                  g.create(1, g.shape(fn=F1, mk1='EQ', tform='RT'), obj=0, k1=1, lo=1, hi=1),
                  g.op(OP_NEW_WATCHED, obj=0),
                  g.monitor(2, g.shape(mock='W', seqar=1), w=0, s1=0)]
-    destroy = [g.release(0), g.release(1), g.release(2), g.op(OP_DESTROY_MOCK, obj=0), g.op(OP_DESTROY_MOCK, obj=2), g.op(OP_DESTROY_MOCK, obj=3),
+    destroy = [g.release(0), g.release(1), g.release(2), g.release(3), g.op(OP_DESTROY_MOCK, obj=0), g.op(OP_DESTROY_MOCK, obj=2), g.op(OP_DESTROY_MOCK, obj=3),
                g.op(OP_MOVE_MOCK, obj=2, k1=3), g.op(OP_MOVE_MOCK, obj=3, k1=2), g.op(OP_DESTROY_SEQ, s1=0), g.op(OP_DESTROY_SEQ, s1=1), g.op(OP_MOVE_SEQ, s1=0),
                g.op(OP_DELETE_WATCHED, obj=0), g.op(OP_POP_TRACER)]
     probes = [g.call(0, F1, 1), g.call(2, F1, 1), g.call(3, F1, 1)]
@@ -529,9 +533,9 @@ def plans_C14(g, tier):
                    g.call(0, F1, 1), g.call(0, F1, 2)]
     if tier == 'quick':
         return [dict(name='pop6', mask=M_C14, du=9, dm=6, alphabet=small_alpha, prefixes=[pop_small]),
-                dict(name='pop9', mask=M_C14, du=9, dm=4, alphabet=destroy + probes, prefixes=[pop])]
+                dict(name='pop9', mask=M_C14, du=9, dm=4, alphabet=destroy + probes, prefixes=[pop, pop_mv2, pop_mon2])]
     return [dict(name='pop6', mask=M_C14, du=9, dm=8, alphabet=small_alpha, prefixes=[pop_small]),
-            dict(name='pop9', mask=M_C14, du=9, dm=6, alphabet=destroy + probes, prefixes=[pop])]
+            dict(name='pop9', mask=M_C14, du=9, dm=6, alphabet=destroy + probes, prefixes=[pop, pop_mv2, pop_mon2])]
 
 
 # ---------------------------------------------------------------- C16
